@@ -346,6 +346,10 @@ class Loop(Node):
         """Take the last child that has a repetition count larger one, decrease it's repetition count and insert a copy
         with repetition cout one after it"""
         if child_index is not None:
+            if child_index < 0:
+                # normalize: the insertion slice [child_index+1:child_index+1] below addresses a different position for
+                # a negative index ([-1+1:-1+1] is the front of the list)
+                child_index = range(len(self))[child_index]
             if self[child_index].repetition_count < 2:
                 raise ValueError('Cannot split child {} as the repetition count is not larger 1')
 
